@@ -495,6 +495,21 @@ def check(ctx, rep):
     rep.rule("R04i", "the MIME tables are asked about the selector (a path starting with '/'), never about a bare file name: "
              "mimetypes.guess_type() reads `word:` at the start of its argument as a URL scheme (data: skips the tables altogether)", floor=1)
     mime_lookup_obligations(ctx, rep, "R04i")
+    rep.rule("R04j", "= R14a over the functions that describe an item: the announced length and type are computed from the file as it is now - no "
+             "module- or class-level memo of entries survives from an earlier request", floor=1)
+    from ..effects import Effects as _Eff4
+    from .c14 import shared_state_obligations as _sso
+    entry_funcs = set()
+    for H_ in ctx.handler_classes():
+        for c_ in prog.mro(H_):
+            entry_funcs.update(m_ for m_ in c_.methods.values() if m_.name in ("getentry", "canhandlerequest", "prepare", "write"))
+    ge_ = ctx.cls("gopherentry.GopherEntry")
+    if ge_ is not None:
+        entry_funcs.update(m_ for m_ in ge_.methods.values() if m_.name.startswith(("populate", "handleeaext", "get", "set")))
+    n_before_ = len(rep.obligations)
+    _sso(ctx, rep, "R04j", _Eff4(prog, ctx.resolver), entry_funcs, sequential=True)
+    if len(rep.obligations) == n_before_:
+        rep.ok("R04j", f"no module- or class-level state is written while an item is described [{len(entry_funcs)} functions]", "pygopherd/handlers", key="R04j|none")
     rep.rule("R04a", "copy loop: 'rb' open in a with; each chunk written once unchanged; loop ends only on an empty read", floor=1)
     rep.rule("R04b", "Gopher+ length: transforming handlers leave size unset; generated menus use the unknown-length marker", floor=5)
     rep.rule("R04c", "HTTP HEAD: no body-producing call reachable; header writes independent of the method", floor=1)
